@@ -59,7 +59,7 @@ Goal(qn, qt, for, d, chain) == [qn |-> qn, qt |-> qt, for |-> for, d |-> d, chai
 
 Init ==
     /\ \E p \in NetParams : net = MkNet(p)
-    /\ q \in Questions
+    /\ q \in {x \in Questions : x.qt = net.qt}
     /\ stack = <<Goal(q.qn, q.qt, NoFor, 0, {})>>
     /\ zs = [a \in {Root} |-> net.roots]
     /\ got = {} /\ log = <<>> /\ tried = {} /\ gl = {} /\ cn = 0
@@ -67,7 +67,7 @@ Init ==
 
 Top == stack[Len(stack)]
 Pop == SubSeq(stack, 1, Len(stack) - 1)
-Usable(a) == zs[a] \ net.denyS                       \* C19_Filters: a denied address is never asked
+Usable(a) == {ip \in zs[a] : ~DeniedContact(net, ip)}    \* C19_Filters: a denied address is never asked
 Known(qn) == {a \in DOMAIN zs : InZone(qn, a) /\ Usable(a) # {}}
 ZoneFor(qn) == Longest(Known(qn))
 Cands(f) ==
@@ -119,7 +119,7 @@ Ask(ip) ==
                     nsr   == {r \in refNs : r.o = c}
                     addrs == {AddrOf(g) : g \in {x \in an \cup ns \cup ad : IsAddr(x) /\ \E n \in nsr : n.d = x.o}}
                     names == {n.d : n \in nsr} \ {g.t : g \in {x \in gl : x.c = c}}
-                IN IF addrs \ net.denyS # {}
+                IN IF {x \in addrs : ~DeniedContact(net, x)} # {}
                    THEN /\ zs' = Learn(c, addrs) /\ UNCHANGED <<stack, gl, cn, out>>
                    ELSE IF names = {} \/ f.d + 1 >= NsLimit
                         THEN Finish(f, "fail", {}) /\ UNCHANGED <<gl, cn>>
@@ -162,7 +162,8 @@ C19_Filters ==
     /\ \A k \in DOMAIN log : ~DeniedContact(net, log[k].ip)
     /\ Done => DeniedAnswers(net, out.recs) = {}
 \* "ends with an answer or an error after a number of upstream queries bounded by the limits"
-C19_Terminates == Len(log) <= Bound(net, Lim) /\ Len(stack) <= NsLimit + RecLimit + 1
+C19_Terminates == /\ Len(log) <= Bound(net, Lim) /\ Len(stack) <= NsLimit + RecLimit + 1
+                  /\ AliasBudgetOk(log, 1)
 C19_Ends == <>Done
 
 TypeOK ==
